@@ -325,7 +325,15 @@ func TestProp(t *testing.T) {
 				old, _ := os.ReadFile(dpath)
 				c.Rep.NT(files["p/types.go"] + files["p/calls.go"] + "|" + gorun.Sha(old, 16))
 			}
-			res := gorun.RunGoderive(dir, "./p")
+			// the package may be addressed in any spelling; the reference run uses ./p
+			spell := rapid.SampledFrom([]string{"./p", "./p", "subj/p", "./...", "dot"}).Draw(rt, "spelling")
+			var res gorun.Result
+			if spell == "dot" {
+				res = gorun.RunGoderive(filepath.Join(dir, "p"), ".")
+			} else {
+				res = gorun.RunGoderive(dir, spell)
+			}
+			history[len(history)-1] += " [goderive " + spell + "]"
 			if res.Err != nil || res.TimedOut {
 				c.Rep.Inconcl("goderive did not run")
 				return
